@@ -2,18 +2,19 @@ package main
 
 // Regression mutants for finding F-C09-3 (rule C09-R13): each lets a record
 // that merely shares the tracked key's 16-bit tag answer "is this key still in
-// the zone" again.
+// the zone" again.  (Since F-C09-6 the fetched keys are a slice, not a tag-indexed
+// map: "some fetched record has this tag" is spelled as a scan.)
 
 func init() {
 	addMutants("C09", []Mutant{
 		{ID: "f-c09-3-presence-by-tag", File: "middleware/resolver/auto_trust_anchor.go",
 			Old:    "if _, present := fetchedRecords[dnskeyRecordFP(ta.DNSKey)]; !present {",
-			New:    "if kskFetched[tag] == nil {",
+			New:    "if func() bool {\n\t\t\t\tfor _, f := range fetchedKSKs {\n\t\t\t\t\tif dnssec.KeyTag(f.DNSKey) == tag {\n\t\t\t\t\t\treturn false\n\t\t\t\t\t}\n\t\t\t\t}\n\t\t\t\treturn true\n\t\t\t}() {",
 			Expect: "C09-R13|(*middleware/resolver.Resolver).AutoTA|State=Valid on a tracked anchor",
 			Why:    "the KeyRem/KeyPres decision is taken from the tag-indexed fetched map again: a pending key seen in one forged response is kept alive and promoted after 30 days by any published record with the same tag (e.g. the revoked form of a retired KSK)"},
 		{ID: "f-c09-3-absent-only-if-tag-gone", File: "middleware/resolver/auto_trust_anchor.go",
 			Old:    "if _, present := fetchedRecords[dnskeyRecordFP(ta.DNSKey)]; !present {",
-			New:    "if _, present := fetchedRecords[dnskeyRecordFP(ta.DNSKey)]; !present && kskFetched[tag] == nil {",
+			New:    "if _, present := fetchedRecords[dnskeyRecordFP(ta.DNSKey)]; !present && func() bool {\n\t\t\t\tfor _, f := range fetchedKSKs {\n\t\t\t\t\tif dnssec.KeyTag(f.DNSKey) == tag {\n\t\t\t\t\t\treturn false\n\t\t\t\t\t}\n\t\t\t\t}\n\t\t\t\treturn true\n\t\t\t}() {",
 			Expect: "C09-R13|(*middleware/resolver.Resolver).AutoTA|State=Valid on a tracked anchor",
 			Why:    "the record test is there but a colliding tag overrides it: the key counts as absent only when its tag is gone too, so the hold-down still completes on a record that is not the key"},
 	})
